@@ -115,7 +115,33 @@ class Hist:
         self.m_c14(i, op, kind, toks, prev, st)
         self.m_c15(i, op, toks, prev, st)
         self.m_c18(i, op, kind, prev, st, ev)
+        self.m_c03_params(i, op, st)
         self.prev = st
+
+    # ---------- C03: the stored parameter sets always satisfy the single-parameter conditions the block hooks rely on ----------
+    def m_c03_params(self, i, op, st):
+        if op not in ("V", "G"):
+            return
+        par = st["par"]
+        one = 10 ** 18
+        bad = []
+        for k in ("node_share", "prov_share"):
+            if not (0 <= I(par[k]) <= one):
+                bad.append("%s = %s/10^18 is outside [0, 1]" % (k, par[k]))
+        for k in ("sub_delay", "sess_delay", "node_active", "max_sub_gb", "min_sub_gb", "max_sub_hr", "min_sub_hr"):
+            if k in par and I(par[k]) <= 0:
+                bad.append("%s = %s is not positive" % (k, par[k]))
+        for k in ("node_deposit", "prov_deposit"):
+            if k in par and par[k] and I(par[k][1]) < 0:
+                bad.append("%s is negative" % k)
+        for k in ("max_gb", "min_gb", "max_hr", "min_hr"):
+            for c in par.get(k, []):
+                if I(c[1]) <= 0:
+                    bad.append("%s holds a non-positive amount" % k)
+        for b in bad:
+            self.v("C03", i, "a governance proposal left an invalid parameter in the store: %s" % b)
+        if op == "V":
+            self.nt("C03.gov")
 
     # ---------- C01 ----------
     def m_c01(self, i, op, kind, toks, prev, st, ev):
